@@ -199,7 +199,7 @@ def run(ck):
             continue
         seen.add(key)
         ck.report(case, oracle=key, key="threads:" + key, what=what)
-    if not fails and not ok:
+    if not ck.violations and not ok:
         ck.report(dict(log=ck.proof_res["log"][-3000:]), unchecked="Properties_C15.vo", what="proof obligations of C15 no longer check")
     ck.cov["trusted_base"] = vlib.TRUSTED_BASE_COMMON + ["ThreadSanitizer (g++ 12) as observer; libgomp is not instrumented, so only reports whose two accesses are both inside cell_divider::run, one of them a resize of the list in the parallel region, are used",
                                                         "the OpenMP runtime picks the interleavings: the explored schedules are the ones that occurred"]
